@@ -182,7 +182,7 @@ def check_property(prop, tier="quick", only_units=None):
         n_fail = len({t["name"] for t in mine if t["name"] in failed_tagnames})
         # a failed proof step (precondition of a lemma of the contract file) leaves the tagged obligations of that
         # function unproved, whatever the verifier says about the clauses themselves
-        step_fns = {f["fn"] for f in r.failures if f["tag"] is None and prop in f["props"] and ".proofstep." in f["obligation"]}
+        step_fns = {f["fn"] for f in r.failures if f["tag"] is None and prop in f["props"] and not f["obligation"].endswith(".safety")}
         n_fail += len({t["name"] for t in mine if t["fn"] in step_fns and t["name"] not in failed_tagnames})
         verified_fns = [it for it in r.items if it["mode"] == "verified"]
         if prop == "C03":
